@@ -9,7 +9,7 @@ def expected_finals(hist):
             exp[h[1:]] = "none"
         else:
             d, v, k = h[1:].split(".")
-            exp[d] = "none" if k == "b" else "v" + v   # a text with a syntax error has no AST: hover says nothing
+            exp[d] = "none" if k in ("b", "l") else "v" + v   # a text with a syntax error has no AST: hover says nothing
     return exp
 
 
@@ -55,7 +55,7 @@ def run(args):
             orders.add(evs)
             if "c" in [h[0] for h in hist.split(",")]:
                 hist_kinds["with_close"] += 1
-            if ".b" in hist:
+            if ".b" in hist or ".l" in hist:
                 hist_kinds["with_broken"] += 1
             if ".i" in hist:
                 hist_kinds["with_import"] += 1
